@@ -87,7 +87,7 @@ def check(pid, tier, seed):
     # on this build every atomic operation can be made a scheduling point (ay=1): the new thread may then run, and even
     # finish, while the starter is still inside start()
     for i in range(n_poll * 2):
-        plines += ["X ay%d mode=random kind=%d args=%d ay=1 seed=%d" % (i, i % 4, (i // 4) % 3, rnd.randrange(1, 2 ** 31)), "E"]
+        plines += ["X ay%d mode=random kind=%d args=%d ay=1 accy=%d seed=%d" % (i, i % 4, (i // 4) % 3, 0 if i % 2 else 1500, rnd.randrange(1, 2 ** 31)), "E"]
     pres = common.run_harness(race_harness(), "\n".join(plines) + "\n")
     for xid, recs in pres.items():
         res[xid] = recs
